@@ -138,6 +138,23 @@ def main():
     for kind in ("nuts", "hmc"):
         spec = enc_for(chk, kind, ("z", "a"), True, T, via_tune=True)
         obs += obligations(*spec)
+    # tuning after a FAST adaptation epoch must not touch step size or metric (only slow epochs adapt the mass matrix)
+    for kind in ("nuts", "hmc"):
+        from liesel.goose.epoch import EpochConfig, EpochType
+        from liesel.goose.hmc import HMCKernelState
+        from liesel.goose.nuts import NUTSKernelState
+        k = make(kind, ("z", "a"), True)
+        KS = NUTSKernelState if kind == "nuts" else HMCKernelState
+        epf = EpochConfig(EpochType.FAST_ADAPTATION, T, 1, None).to_state(1, 0)
+
+        def gf(ss, imm, hist, k=k, KS=KS):
+            out = k.tune(jax.random.PRNGKey(0), KS(ss, imm), {}, epf, hist)
+            return dict(imm=out.kernel_state.inverse_mass_matrix, ss=out.kernel_state.step_size)
+        hist0 = {"z": jnp.linspace(0.0, 1.0, T), "a": jnp.zeros((T, 2)) + 0.1}
+        symf = (np.array(z3.Real(f"ssf_{kind}"), dtype=object).reshape(()), symlike(jnp.ones(3), f"immf_{kind}"), symlike(hist0, f"hf_{kind}"))
+        ef = chk.note_enc(Enc(f"{kind}.tune after a fast adaptation epoch", gf, (0.1, jnp.ones(3), hist0), symf, domain={f"ssf_{kind}": (0.05, 1.0)}))
+        obs.append(Obligation(f"{kind}: tune() after a FAST adaptation epoch leaves step size and inverse mass matrix unchanged", [ef],
+                              (lambda V, symf=symf: ([], z3.And(cells(V.out["ss"])[0] == cells(symf[0])[0], all_eq(V.out["imm"], symf[1])))), signature=f"{kind}:fast-tune"))
     for e in chk.encs:
         chk.validated_points += e.validate(chk.rng, npoints=1)
     obs += fp32_positivity(chk, 3)
